@@ -63,6 +63,30 @@ pub fn written_after_first(net: &NetRef) -> String {
     }
 }
 
+/// everything after the first frame of `w`
+pub fn after_first(w: &[u8]) -> String {
+    match w.iter().position(|b| *b == 0) {
+        Some(p) => hex(&w[p + 1..]),
+        None => hex(w),
+    }
+}
+
+pub fn padded_first(pad: usize) -> &'static str {
+    Box::leak(format!("org.ex.First{}", "x".repeat(pad)).into_boxed_str())
+}
+
+/// (target, pad): paddings of the first call's method name that put the last byte of the second call at
+/// offset target - 1 .. of the write buffer, for targets around its growth steps
+pub fn ext_pads(w0: &[u8]) -> Vec<(usize, usize)> {
+    let Some(first) = w0.iter().position(|b| *b == 0) else { return vec![] };
+    if w0.len() < first + 2 {
+        return vec![];
+    }
+    let l = w0.len() - first - 2; // the second frame without its terminator
+    let pos0 = first + 1;
+    [255usize, 256, 257, 511, 512, 513].iter().filter_map(|&t| (t >= pos0 + l).then(|| (t, t - pos0 - l))).collect()
+}
+
 fn ident(dbg: &str) -> String {
     dbg.chars().take_while(|c| c.is_alphanumeric() || *c == '_').collect()
 }
